@@ -358,3 +358,15 @@ Example start_join_disturbed_witnesses :
 Proof.
   cbv zeta. intros ops [<-|[<-|[<-|[]]]]; vm_compute; repeat split; eauto.
 Qed.
+
+(* Model observation (faithful to the source: start() joins only `if handle.status is PENDING`): when the child's
+   handle scope was already cancelled by somebody else (status CANCELLING), the interrupted start() re-raises at once
+   although the child's coroutine has not ended (here it has not even started).  In Python nobody can hold the
+   handle of a child before start() returns, so `AHandleCancel 3 2` below is not expressible by a program. *)
+Example start_reraises_without_join_refuted :
+  let s := final step init [ANewRoot; AGroupNew 1; AGroupEnter 1 1; AStart 1 1; ANewRoot; AHandleCancel 3 2;
+                            ANativeCancel 1] in
+  k_ctl (tasks s 1) = CStartWait 1 2 4 /\ snd (step s (ARun (HWake 1 4))) = RExc (ECancel 0) /\
+  k_final (tasks (fst (step s (ARun (HWake 1 4)))) 2) = None /\
+  k_ctl (tasks (fst (step s (ARun (HWake 1 4)))) 2) = CNew.
+Proof. vm_compute. auto. Qed.
